@@ -107,6 +107,8 @@ class NodeBase(object):
 
     RESERVED_PARAMETER_NAMES = ("__all__", "__real__", "__root__", "__error__")
 
+    _renotify = False  # a stale node whose update failed passes on the next notification once more
+
     def __init__(self, name=None):
         """
         :param name: the name of the node
@@ -337,8 +339,9 @@ class NodeBase(object):
         """
         Sets this node's stale property to True.
         """
-        if not self.stale and not self.frozen:
+        if (not self.stale or self._renotify) and not self.frozen:
             self._stale = True
+            self._renotify = False
             self.notify_parents()
 
     def update(self):
@@ -663,10 +666,11 @@ class Function(ValueNode):
     @func.setter
     def func(self, function_handle):
         self._func = function_handle
-        _was_stale = self._stale
+        _was_stale = self._stale and not self._renotify
         self._stale = True
         if not _was_stale and not self._frozen:
             # nodes computed from the previous function are out of date
+            self._renotify = False
             self.notify_parents()
 
     @ValueNode.value.setter
@@ -731,7 +735,14 @@ class Fallback(ValueNode):
             try:
                 return _node.value
             except self._exception_type:
-                pass  # function failed; try next
+                # function failed; try next
+                # the failed nodes remain stale: make them pass on the next notification anyway
+                _failed_nodes = [_node]
+                while _failed_nodes:
+                    _failed_node = _failed_nodes.pop()
+                    if _failed_node.stale and not _failed_node._renotify:
+                        _failed_node._renotify = True
+                        _failed_nodes.extend(_failed_node.get_children())
 
         raise RuntimeError("Error evaluating fallback node '{}': " "no alternative succeeded".format(self.name))
 
